@@ -47,7 +47,9 @@ class P(vlib.Prop):
                   "place, only the header's own name is re-bound (every other name keeps its content: c07_hardlink_names_keep_content, with the switch goextract reads off "
                   "writeHeader/link), and the flat model is exactly the reader's view of it. One package shipping a path twice: the later copy wins unless the bytes are the "
                   "same, the writer records the last header per name once per occurrence (equal to f_db when no path repeats; refuted as truthful otherwise, C07-F16); "
-                  "what a reader of tarfs gets (bytes by entry name) is the tree itself when no name repeats (C07-F17 witness otherwise). "
+                  "what a reader of tarfs gets (bytes by entry name) is the tree itself when no name repeats (C07-F17 witness otherwise); when packages disagree on a link's target "
+                  "the tree of tarfs holds exactly the link the walk through writeHeader's decision names (c07_lazy_link_winner_by_rules, compared with the real tree); the two facts of "
+                  "sortTarHeaders the writer model rests on are read off the source by shape (c07_db_writer_is_source). "
                   "The model the correspondence runs "
                   "(install_l) additionally resolves paths through symbolic links and is proved to answer as the model of the theorems wherever that one answers. "
                   "The model is tied to the code by differential comparison of error class, final tree and parsed database text on all three backends, and the "
